@@ -16,7 +16,7 @@ LEVEL = "model_checking"
 ASAN = True
 
 OPS = ["step", "add", "remove1", "remove_last", "remove_all", "to_ias15", "to_whfast", "to_mercurius", "to_janus", "to_bs", "to_trace", "to_saba", "to_whfast_unsafe",
-       "reset", "halve_dt", "edit_last", "edit_p1", "add_var", "megno", "add_overlap", "set_softening"]
+       "reset", "halve_dt", "edit_last", "edit_p1", "add_var", "megno", "add_overlap", "set_softening", "rewind", "blow_var"]
 CADENCE_IGNORED = {47, 48, 102, 135, 136, 11, 145}
 
 
@@ -42,6 +42,11 @@ class Hist:
         if start == "whfast_unsafe":
             sim.integrator = "whfast"
             sim.ri_whfast.safe_mode = 0
+        elif start.endswith("_var"):
+            # the first snapshot already holds a variational configuration (later ones differ from it in single members only)
+            sim.integrator = start[:-4]
+            v = sim.add_variation()
+            v.particles[1].x = 1.0
         else:
             sim.integrator = start
         sim.collision = "direct"
@@ -77,6 +82,10 @@ class Hist:
             return False
         if op == "add_overlap" and st["overlap"]:
             return False
+        if op == "rewind" and not st.get("moved"):
+            return False        # only after the clock has left the time of the first snapshot
+        if op == "blow_var" and st["var"] != "var":
+            return False
         return True
 
     def apply(self, sim, st, op):
@@ -84,6 +93,7 @@ class Hist:
         if op == "step":
             sim.step()
             st["overlap"] = False
+            st["moved"] = True
             st["N"] = sim.N - sim.N_var
         elif op == "add":
             sim.synchronize()
@@ -153,6 +163,16 @@ class Hist:
             sim.synchronize()
             sim.init_megno(seed=5)
             st["var"] = "megno"
+        elif op == "rewind":
+            # the clock returns to exactly the time of the first snapshot (as after integrating back to the start): a delta
+            # snapshot then carries no time field at all
+            sim.synchronize()
+            sim.t = st["t_first"]
+            st["moved"] = False
+        elif op == "blow_var":
+            # a variational particle beyond the rescaling threshold: the next step rescales it and records that in lrescale
+            sim.synchronize()
+            sim.particles[sim.N - sim.N_var].x = 3e100
         else:
             raise ValueError(op)
 
@@ -167,12 +187,13 @@ class Hist:
         fn = tmpname()
         try:
             sim = self.start(start)
-            st = {"N": sim.N, "var": None, "integ": "whfast" if start.startswith("whfast") else start, "adds": 0, "overlap": False}
+            st = {"N": sim.N - sim.N_var, "var": "var" if start.endswith("_var") else None, "integ": "whfast" if start.startswith("whfast") else start.replace("_var", ""), "adds": 0, "overlap": False}
             model = []
             if pre:
                 # the first snapshot is taken from a simulation that has already stepped (its integrator arrays exist)
                 sim.steps(pre)
             sim.save_to_file(fn)
+            st["t_first"] = sim.t
             model.append((sim.t, self.snap(sim)))
             for i, op in enumerate(hist):
                 if not self.enabled(st, op):
@@ -391,7 +412,7 @@ class Cadence:
 def run(ctx):
     rebound = ctx.use("asan")
     depth = 3 if ctx.tier == "quick" else 4
-    starts = ["whfast", "ias15"] if ctx.tier == "quick" else ["whfast", "ias15", "whfast_unsafe", "mercurius"]
+    starts = ["whfast", "ias15", "ias15_var", "whfast_var"] if ctx.tier == "quick" else ["whfast", "ias15", "whfast_unsafe", "mercurius", "ias15_var", "whfast_var"]
     tasks = []
     for start in starts:
         for d in range(1, depth + 1):
